@@ -56,6 +56,8 @@ func (fs *filestore) GetBucketMeta(baseUrl HttpBaseUrl, bucket string) (*storage
 }
 
 func (fs *filestore) Get(baseUrl HttpBaseUrl, bucket string, filename string) (*storage.Object, []byte, error) {
+	verifPoint("store.enter", bucket, filename)
+	defer verifPoint("store.ret", bucket, filename)
 	obj, err := fs.GetMeta(baseUrl, bucket, filename)
 	if err != nil {
 		return nil, nil, err
@@ -74,6 +76,8 @@ func (fs *filestore) Get(baseUrl HttpBaseUrl, bucket string, filename string) (*
 }
 
 func (fs *filestore) GetMeta(baseUrl HttpBaseUrl, bucket string, filename string) (*storage.Object, error) {
+	verifPoint("store.enter", bucket, filename)
+	defer verifPoint("store.ret", bucket, filename)
 	f := fs.filename(bucket, filename)
 	fInfo, err := os.Stat(f)
 	if err != nil {
